@@ -1,4 +1,5 @@
 import GqlVerif.Proofs.C01VariantSpreadE
+import GqlVerif.Proofs.CalcVariantsPushed
 /-!
 # C01 / C03 end to end: `VariantSpreadOp2` — inline fragments whose body is a lone spread, next to other selections (part F)
 
@@ -835,7 +836,10 @@ theorem stepR2F (f : Nat) (H2 : R2F c N M f) (H3 : R3F c N M f) : R2F c N M (f +
           have hh := variantHead_alias (c := c) (pfx := pfx) (vt := .object i) (sub := normSels sels) (g := g)
             (by rw [hmine, hg]; unfold normSels; rw [hk, hmv]; rfl)
           rw [hg, hk, hali] at h3
-          simp only [hvs, h3, hrest, pure, Except.pure, hemp']
+          -- (P41) a lone aliased inline fragment pushes no field for the variant struct
+          have hpa : pushedAny c.q (.object i) (v :: vs) = false := by
+            rw [← hvs, hg]; rfl
+          simp only [hvs, h3, hrest, pure, Except.pure, hemp', hpa]
           simp only [hg, hk, hh]
           simp [varFields, varItems, fragName, hfr]
         · -- the variant struct
@@ -856,6 +860,9 @@ theorem stepR2F (f : Nat) (H2 : R2F c N M f) (H3 : R3F c N M f) : R2F c N M (f +
           · -- `[], [a]`: excluded by `edgeOk`
             rename_i a h1 h2
             exfalso
+            -- (P41) the decision is taken on `pushedAny`; nothing pushed ⇒ no rendered field
+            have h1 : varFields c pfx (.object i) (keepN (mineOf c.q (.object i) sels)) = [] :=
+              Pushed.pushedAny_false_fields h3 h1
             have he := hedge (.object i) (by simp)
             simp only [edgeOk, Bool.not_eq_true', Bool.and_eq_false_iff, decide_eq_false_iff_not] at he
             have hlen1 : (movedN (mineOf c.q (.object i) sels)).length = 1 := by
